@@ -139,7 +139,13 @@ def build(S, tier):
                     nl = I.loader.models["ase.neighborlist"]
                     ii = [i for (i, j) in pairs if adj[(i, j)]] + [j for (i, j) in pairs if adj[(i, j)]]
                     jj = [j for (i, j) in pairs if adj[(i, j)]] + [i for (i, j) in pairs if adj[(i, j)]]
-                    nl.attrs["neighbor_list"] = Builtin("neighbor_list", lambda I_, a, k: (Tensor((len(ii),), list(ii), "int"), Tensor((len(jj),), list(jj), "int")))
+                    def neighbor_list(I_, a, k):
+                        if k.get("self_interaction", False) is not False:
+                            raise Unsupported("neighbor_list(self_interaction=True)")
+                        if (a[0] if a else k.get("quantities")) != "ij":
+                            raise Unsupported("neighbor_list with quantities other than 'ij'")
+                        return (Tensor((len(ii),), list(ii), "int"), Tensor((len(jj),), list(jj), "int"))
+                    nl.attrs["neighbor_list"] = Builtin("neighbor_list", neighbor_list)
                     nx = I.loader.models["networkx"]
                     nx.attrs["from_numpy_array"] = Builtin("from_numpy_array", lambda I_, a, k: Graph(a[0]))
 
